@@ -337,6 +337,15 @@ def check_cfg(ctx, fx, cfg):
             okc = bool(rs) and all(r.kind == "arg" or r.kind.startswith("call:channel::Channel::<A>::") for r in rs)
             ctx.require(okc, "R01.11", "channel-handed-over:%s@%s" % (g["def"], cfg), "the channel the loop runs on is not the one created for this actor (roots %s)" % sorted(map(str, rs)), fn=g["def"], site=t_["l"])
         ctx.floor("R01.11", "callers of Environment::from_channel (%s)" % cfg, n_t, 6)
+    # R01.12 a submission API answers Ok only for a message it has itself put into the mailbox (a call / ping that rides on
+    # somebody else's submission is answered from that submission's queue position: program order of the caller is lost)
+    from props.c04 import check_submit_on_ok
+    SUBMITTERS = ["addr::Addr::<A>::call", "addr::Addr::<A>::ping", "addr::Addr::<A>::send", "addr::Addr::<A>::force_send"]
+    for e in SUBMITTERS:
+        if fx.fn(e) is None:
+            ctx.viol("R01.12", "exists:%s@%s" % (e, cfg), "submission API %s not found" % e)
+            continue
+        check_submit_on_ok(ctx, fx, "R01.12", e, set(), any_path=True)
     # R01.6 types
     pa = fx.adts.get(loops.PAYLOAD)
     if ctx.require(pa is not None, "R01.6", "payload-type@" + cfg, "environment::payload::Payload not found"):
